@@ -288,7 +288,9 @@ func (db *RockDB) buildFullScanIterator(storeDataType byte, table,
 
 	dbLog.Debugf("full scan range: %v, %v, %v, %v", minKey, maxKey, string(minKey), string(maxKey))
 	//	minKey = minKey[:0]
-	it, err := db.NewDBRangeLimitIterator(minKey, maxKey, common.RangeOpen, 0, count+1, false)
+	// no limit on the iterator: the scan loop stops after count matched elements, and a limit
+	// here would also count the elements skipped by the match pattern
+	it, err := db.NewDBRangeIterator(minKey, maxKey, common.RangeOpen, false)
 	if err != nil {
 		return nil, err
 	}
